@@ -57,8 +57,13 @@ func cmdDump(args []string) int {
 						return true
 					}
 				}
-				return g == c.registerFn()
-			}})
+				for _, n := range strings.Split(os.Getenv("JENLINT_OPAQUE"), ",") {
+					if n != "" && fname(g) == n {
+						return true
+					}
+				}
+				return g == c.registerFn() && fname(g) != filter
+			}, MaxVisits: envInt("JENLINT_VISITS", 0), MaxPaths: envInt("JENLINT_MAXPATHS", 0)})
 			fmt.Printf("== %s: %d paths (truncated %v)\n", fname(f), len(ps), trunc)
 			for i, p := range ps {
 				fmt.Printf("-- path %d end=%s ret=%v trace=%s\n   facts %s\n", i, p.End, p.Ret, strings.Join(p.Trace, ">"), p.Facts)
@@ -77,4 +82,13 @@ func cmdDump(args []string) int {
 		return 2
 	}
 	return 0
+}
+
+func envInt(k string, d int) int {
+	if v := os.Getenv(k); v != "" {
+		n := 0
+		fmt.Sscanf(v, "%d", &n)
+		return n
+	}
+	return d
 }
